@@ -246,8 +246,17 @@ pub fn encode_snapshot(s: &Snapshot, out: &mut Vec<u8>) {
                 put_var(out, v.branch);
                 out.push(v.persistence);
                 out.push(u8::from(v.heap));
-                put_var(out, v.data.len());
-                out.extend_from_slice(&v.data);
+                // lossless: a big menu datum is written as its (unique) menu index
+                match if v.data.len() >= 255 { crate::menu::big_index(&v.data) } else { None } {
+                    Some(d) => {
+                        put_var(out, usize::MAX);
+                        out.push(d);
+                    }
+                    None => {
+                        put_var(out, v.data.len());
+                        out.extend_from_slice(&v.data);
+                    }
+                }
                 // the padding of an inline array is part of the state
                 if !v.heap {
                     out.extend_from_slice(&v.raw[v.data.len().min(v.raw.len())..]);
@@ -749,7 +758,7 @@ pub fn adopt_real_state<const N: usize>(g: &Sodg<N>, m: &mut Model) -> Result<()
             let li = (0u8..=60).find(|i| lab(*i) == *l).ok_or_else(|| format!("ν{id} has an edge labelled {l}, which is not in the menu"))?;
             edges.push((li, *t));
         }
-        let data = if v.persistence == 0 { None } else { Some((0u8..=255).find(|d| dat_bytes(*d) == v.data).ok_or_else(|| format!("ν{id} holds bytes {:?}, which are not in the menu", v.data))?) };
+        let data = if v.persistence == 0 { None } else { Some((0u8..=255).find(|d| if *d >= crate::menu::BIG_FIRST && *d <= crate::menu::BIG_LAST { crate::menu::big_len(*d) == v.data.len() && dat_bytes(*d) == v.data } else { dat_bytes(*d) == v.data }).ok_or_else(|| format!("ν{id} holds bytes {:?}, which are not in the menu", v.data))?) };
         observed.insert(id, (edges, data, v.persistence == 1, if v.branch >= 2 { Some(v.branch) } else { None }));
     }
     m.adopt_observed(observed);
